@@ -4,12 +4,28 @@ Correspondence: real `model.simulate(algorithm="simulate", ...)` on the stored f
 (and the bare constructor for the validation grid) against `Model/Simulate.lean` through `drivers/C18.lean`.
 The random draws the implementation consumes (`numpy.random.normal`) are recorded by a call-through wrapper
 and fed to the Lean model as float64 bit patterns, so the final visit ages are compared bitwise.
+
+Hardening (after six rounds of seeded changes): one model object per stored model shared by the runs (besides fresh, deep-copied
+and saved-then-reloaded ones); every entry point (keyword settings, `AlgorithmSettings` object — also used twice —, settings file,
+`algorithm_factory(...).run`, the class itself, one algorithm object run twice, the `AlgorithmName` member); synthetic logistic
+models (2..12 features, 0..5 sources, huge / tiny noise, fast progression); numpy-typed parameter values and feature names;
+visit tables in every dtype / layout pandas offers (float32 / int / object TIME, categorical / string / int32 / negative / non-ASCII
+ids, extra columns, any index, up to 30 individuals, ages 0 / negative / 1000+); wider design ranges (150 individuals, hundreds of
+visits, negative ages, spacing in days); seeds 0 / None / 2**32-1; scripted normal draws that put the generated ages on exact
+duplicates, rounding ties, +-1 ulp of them and the loop boundary at every precision; ambient torch default dtype and pandas
+copy-on-write.
 """
 from __future__ import annotations
 
 import contextlib
+import copy
+import json
 import math
+import os
+import random as _random
+import shutil
 import signal
+import tempfile
 import warnings
 
 from . import core
@@ -42,11 +58,15 @@ LEAN = dict(
         "visit table: ID column homogeneous (all str or all int), non-null, non-empty strings; TIME finite",
         "python bool values for numeric parameters are not generated (bool is an int subclass)",
         "almost-sure termination of the random walk for distance_visit_std > 0 is probability theory: proved only for step draws >= delta > 0; runs are guarded by a wall-clock alarm",
+        "an ambient torch default dtype of float64 is exercised with model objects whose derived values were computed beforehand (the stored files carry them); a model that still derives values lazily under that ambient mixes precisions throughout leaspy (estimate, personalize), which is not this property's matter",
     ],
 )
 
 MODELS = ["logistic_diag_noise", "logistic_scalar_noise", "logistic_diag_noise_custom", "univariate_logistic",
           "logistic_diag_noise_mh"]
+# synthetic logistic models written to a scratch directory: syn_d<features>_s<sources>_<diag|scalar>[_<variant>]
+SYN_MODELS = ["syn_d2_s1_diag", "syn_d7_s3_diag", "syn_d12_s5_scalar", "syn_d3_s0_diag", "syn_d4_s2_diag_bignoise",
+              "syn_d4_s2_diag_tinynoise", "syn_d4_s2_scalar_fast"]
 RANDOM_KEYS = ["patient_number", "first_visit_mean", "first_visit_std", "time_follow_up_mean",
                "time_follow_up_std", "distance_visit_mean", "distance_visit_std"]
 LEAN_KEYS = dict(patient_number="pn", first_visit_mean="fvm", first_visit_std="fvs", time_follow_up_mean="fum",
@@ -57,7 +77,7 @@ QUICK_ALARM, THOROUGH_ALARM = 12.0, 20.0
 
 # ---------------------------------------------------------------------------------------------- environment
 class Env:
-    def __init__(self):
+    def __init__(self, tmp=None):
         warnings.filterwarnings("ignore")
         import leaspy.models  # noqa: F401  (must precede leaspy.variables)
         import numpy as np
@@ -71,10 +91,71 @@ class Env:
         self.BaseModel, self.LAIE, self.simmod = BaseModel, LeaspyAlgoInputError, simmod
         self.model_dir = core.REPO / "tests/_data/model_parameters/from_fit"
         self._info = {}
+        self._shared = {}
+        self.tmp = tempfile.mkdtemp(prefix="c18_", dir=tmp)
+
+    def close(self):
+        shutil.rmtree(self.tmp, ignore_errors=True)
+
+    def path(self, name):
+        if not name.startswith("syn_"):
+            return str(self.model_dir / f"{name}.json")
+        p = os.path.join(self.tmp, name + ".json")
+        if not os.path.exists(p):
+            with open(p, "w") as fh:
+                json.dump(self.synthetic(name), fh)
+        return p
+
+    def synthetic(self, name):
+        """A logistic model file derived from a stored one (the derived values are recomputed at load)."""
+        _, d_, s_, noise, *variant = name.split("_")
+        dim, src = int(d_[1:]), int(s_[1:])
+        d = json.loads((self.model_dir / "logistic_diag_noise.json").read_text())
+        r = _random.Random(1000 * dim + src)
+        d["features"], d["dimension"], d["source_dimension"] = [f"F{i}" for i in range(dim)], dim, src
+        p, h = d["parameters"], d["hyperparameters"]
+        p["log_g_mean"] = [r.uniform(0, 3) for _ in range(dim)]
+        p["log_v0_mean"] = [r.uniform(-4.5, -3) for _ in range(dim)]
+        p["noise_std"] = [r.uniform(0.03, 0.2) for _ in range(dim)] if noise == "diag" else r.uniform(0.03, 0.2)
+        d["obs_models"] = {"y": "gaussian-diagonal" if noise == "diag" else "gaussian-scalar"}
+        p.pop("mixing_matrix", None)
+        if src > 0:
+            p["betas_mean"] = [[r.uniform(-0.1, 0.1) for _ in range(src)] for _ in range(dim - 1)]
+            h["sources_mean"] = [0.0] * src
+        else:
+            p.pop("betas_mean", None)
+            for k in ("sources_mean", "sources_std", "betas_std"):
+                h.pop(k, None)
+        if "bignoise" in variant:       # variance clamped at almost every visit
+            p["noise_std"] = [0.45, 0.3, 0.5, 0.6][:dim] if noise == "diag" else 0.5
+        if "tinynoise" in variant:      # beta parameters of the order of 1e8
+            p["noise_std"] = [1e-4, 1e-3, 1e-5, 1e-4][:dim] if noise == "diag" else 1e-4
+        if "fast" in variant:           # individual speeds spread over e^+-9, onsets over +-90 years
+            p["xi_std"], p["tau_std"] = [3.0], [30.0]
+        return d
 
     def load(self, name):
         with core.quiet():
-            return self.BaseModel.load(str(self.model_dir / f"{name}.json"))
+            return self.BaseModel.load(self.path(name))
+
+    def model_for(self, case):
+        """fresh (default) | shared: one object per model for the whole run | deepcopy of it | saved and loaded again"""
+        how, name = case.get("model_obj", "fresh"), case["model"]
+        if how == "fresh":
+            return self.load(name)
+        if name not in self._shared:
+            self._shared[name] = self.load(name)
+        m = self._shared[name]
+        if how == "shared":
+            return m
+        if how == "deepcopy":
+            return copy.deepcopy(m)
+        if how == "saveload":
+            p = os.path.join(self.tmp, f"resaved_{name}.json")
+            with core.quiet():
+                m.save(p)
+                return self.BaseModel.load(p)
+        raise ValueError(how)
 
     def info(self, name):
         if name not in self._info:
@@ -108,8 +189,13 @@ class Recorder:
     """Call-through wrappers on the generators the simulation uses (numpy.random.normal, scipy beta.rvs)."""
     MAX = 400_000
 
-    def __init__(self, env):
+    def __init__(self, env, mk_script=None):
         self.env = env
+        self.mk_script = mk_script or (lambda: None)
+        self.reset()
+
+    def reset(self):
+        self.script = self.mk_script()  # None | Script: replaces what the generator returned (the generator is consumed all the same)
         self.normal = []  # (size, output)
         self.n_normal = 0
         self.n_beta = 0
@@ -123,6 +209,8 @@ class Recorder:
 
         def normal(loc=0.0, scale=1.0, size=None):
             out = orig_normal(loc, scale, size)
+            if rec.script is not None:
+                out = rec.script.replace(rec.n_normal, size, out)
             rec.n_normal += 1
             if len(rec.normal) < rec.MAX:
                 rec.normal.append((size, out))
@@ -158,6 +246,36 @@ class Recorder:
             SA._generate_visit_ages = orig_gva
 
 
+class Script:
+    """Adversarial draws for a random design: the onset ages become whole years, the first-visit offsets, follow-up lengths and
+    steps come from a small set built on the reporting unit u = 10**-p (exact duplicates, ages that collide after rounding, rounding
+    ties k.5 u and their neighbours one ulp away, a step back, follow-ups that end exactly on a visit).  Every choice is a pure function
+    of (`seed`, position), so a case replays identically; the Lean model is fed the replaced draws like any recorded ones."""
+
+    def __init__(self, env, seed, p, src):
+        self.np, self.src = env.np, src
+        self.r = _random.Random(seed)
+        u = 10.0 ** -p
+        nx = lambda x: float(env.np.nextafter(x, math.inf))
+        pv = lambda x: float(env.np.nextafter(x, -math.inf))
+        self.offsets = [0.0, u / 2, nx(u / 2), pv(u / 2), 1.5 * u, 2.5 * u, u / 4, -u / 2, -1.5 * u, 0.05, 0.15, 0.25, 0.35, 0.005, 0.015,
+                        0.0005, 0.0015, 0.0025, u, 7 * u]
+        self.follow = [0.0, u, 3 * u, 10 * u, 10.5 * u, 2 * u, 4.5 * u, pv(3 * u), nx(3 * u)]
+        self.steps = [u, u, u / 2, u / 2, u / 10, 0.0, -u / 2, 2 * u, 1.5 * u, nx(u), pv(u), u / 4, 3 * u, 0.3 * u, 0.7 * u]
+
+    def replace(self, idx, size, out):
+        np = self.np
+        if size is None:
+            return np.float64(self.r.choice(self.steps))
+        if idx == 1:
+            return np.round(np.asarray(out, dtype=np.float64))
+        if idx == 2 + self.src:
+            return np.array([self.r.choice(self.offsets) for _ in range(len(out))], dtype=np.float64)
+        if idx == 3 + self.src:
+            return np.array([self.r.choice(self.follow) for _ in range(len(out))], dtype=np.float64)
+        return out
+
+
 # ---------------------------------------------------------------------------------------------- case encoding
 def py_val(env, e):
     """encoded dictionary value -> python object"""
@@ -165,9 +283,15 @@ def py_val(env, e):
         if "i" in e:
             return int(e["i"])
         if "f" in e:
-            return float(e["f"])
+            # numpy.float64 is a python float (accepted like one)
+            return env.np.float64(e["f"]) if e.get("np") else float(e["f"])
         if "o" in e:
-            return {"str": "abc", "numstr": "5", "none": None, "list": [1.0], "npint": env.np.int64(5)}[e["o"]]
+            import decimal
+            import fractions
+            return {"str": "abc", "numstr": "5", "none": None, "list": [1.0], "npint": env.np.int64(5),
+                    "npfloat32": env.np.float32(0.5), "npint32": env.np.int32(3), "fraction": fractions.Fraction(1, 2),
+                    "decimal": decimal.Decimal("0.5"), "complex": complex(1.0, 0.0), "nparray": env.np.array(0.5),
+                    "tensor": env.torch.tensor(0.5)}[e["o"]]
     if e == "nan":
         return float("nan")
     if e == "pinf":
@@ -193,10 +317,19 @@ def hexs(s: str) -> str:
     return s.encode("utf-8").hex()
 
 
-def build_features(enc):
-    if isinstance(enc, str):  # "notlist:tuple" / "notlist:none" / "notlist:str"
-        return {"notlist:tuple": ("Y0", "Y1"), "notlist:none": None, "notlist:str": "Y0"}[enc]
-    return [f if isinstance(f, str) else 1 for f in enc]
+class _StrSub(str):
+    pass
+
+
+def build_features(enc, feat_type=None, env=None):
+    if isinstance(enc, str):  # "notlist:tuple" / "notlist:none" / "notlist:str" / …
+        if enc in ("notlist:array", "notlist:index", "notlist:series"):
+            names = ["Y0", "Y1", "Y2", "Y3"]
+            return {"notlist:array": env.np.array(names), "notlist:index": env.pd.Index(names), "notlist:series": env.pd.Series(names)}[enc]
+        return {"notlist:tuple": ("Y0", "Y1"), "notlist:none": None, "notlist:str": "Y0", "notlist:set": {"Y0", "Y1"},
+                "notlist:dict": {"Y0": 0, "Y1": 1}}[enc]
+    conv = {None: str, "npstr": (lambda x: env.np.str_(x)), "strsub": _StrSub}[feat_type]   # both are python strings
+    return [conv(f) if isinstance(f, str) else 1 for f in enc]
 
 
 def lean_features(enc):
@@ -221,6 +354,28 @@ def build_table(env, t):
         df = pd.DataFrame({id_name: pd.Series([], dtype=object), time_name: pd.Series([], dtype=float)})
     else:
         df = pd.DataFrame({id_name: ids, time_name: times})
+        # the dtypes and layouts a caller's table may have (the design is the same table)
+        if t.get("time_dtype") and not t.get("time_null"):
+            df[time_name] = df[time_name].astype(t["time_dtype"])        # float32 | int64 | int32 | object
+        if t.get("id_dtype"):
+            df[id_name] = df[id_name].astype(t["id_dtype"])              # category | string | int32
+            if t.get("unused_category") and t["id_dtype"] == "category":
+                # a category without any row, as left behind by filtering a cohort
+                df[id_name] = df[id_name].cat.add_categories(["zz-not-in-the-table"] if isinstance(ids[0], str) else [10 ** 6 + 1])
+        if t.get("extra_cols"):
+            df["SEX"] = [k % 2 for k in range(len(df))]
+            df["NOTE"] = "x"
+            df = df[["NOTE", time_name, "SEX", id_name]]
+        ix = t.get("index")
+        if ix == "gaps":
+            df.index = [3 * k + 5 for k in range(len(df))][::-1]
+        elif ix == "dup":
+            df.index = [0] * len(df)
+        elif ix == "named":
+            df.index = pd.Index([f"r{k % 3}" for k in range(len(df))], name="row")
+        elif ix == "filtered":     # a view-like selection of a larger frame
+            big = pd.concat([df, df.iloc[:1].assign(**{time_name: -999.0})], ignore_index=True)
+            df = big[big[time_name] != -999.0]
     idx = [n for n, at in ((id_name, t["id_at"]), (time_name, t["time_at"])) if at == "index"]
     if idx:
         df = df.set_index(idx)
@@ -373,6 +528,13 @@ def f16f_region(env, case):
     return len(f) != dim or len(set(f)) != len(f)
 
 
+def f130_region(case):
+    """F130: visit table whose ID column is categorical with a category that no row carries."""
+    t = (case["vp"] or {}).get("df_visits")
+    return (case["vp"] or {}).get("visit_type") == "dataframe" and isinstance(t, dict) and bool(t["rows"]) \
+        and t.get("id_dtype") == "category" and bool(t.get("unused_category")) and t["id_at"] == "column"
+
+
 def f16g_region(case):
     vp = case["vp"] or {}
     t = vp.get("df_visits")
@@ -389,7 +551,7 @@ def run_constructor(env, case):
     before = env.rng_fingerprint()
     try:
         with core.quiet():
-            env.BaseModel._get_algorithm("simulate", None, None, features=build_features(case["features"]),
+            env.BaseModel._get_algorithm("simulate", None, None, features=build_features(case["features"], case.get("feat_type"), env),
                                          visit_parameters=build_vp(env, case["vp"]), seed=case.get("seed", 0))
         out = "ok"
     except Exception as e:  # noqa
@@ -397,17 +559,74 @@ def run_constructor(env, case):
     return out, env.rng_fingerprint() == before
 
 
+ENTRIES = ("kwargs", "enum", "settings", "settings_twice", "settings_path", "factory", "class", "run_twice")
+
+
+def call_simulate(env, model, case, feats, vp, rec):
+    """The public ways to the same simulation.  `*_twice`: the first use is not recorded, the design must be honoured by the second."""
+    from leaspy.algo import AlgorithmName, AlgorithmSettings, algorithm_factory
+    entry, seed = case.get("entry", "kwargs"), case["seed"]
+    if entry == "kwargs":
+        return model.simulate(algorithm="simulate", seed=seed, features=feats, visit_parameters=vp)
+    if entry == "enum":
+        return model.simulate(algorithm=AlgorithmName.SIMULATE, seed=seed, features=feats, visit_parameters=vp)
+    settings = AlgorithmSettings("simulate", seed=seed, features=feats, visit_parameters=vp)
+    if entry == "settings":
+        return model.simulate(algorithm_settings=settings)
+    if entry == "settings_twice":
+        model.simulate(algorithm_settings=settings)
+        rec.reset()
+        return model.simulate(algorithm_settings=settings)
+    if entry == "settings_path":
+        path = os.path.join(env.tmp, "settings.json")
+        settings.save(path)
+        return model.simulate(algorithm_settings_path=path)
+    if entry == "factory":
+        return algorithm_factory(settings).run(model)
+    if entry == "class":
+        return env.simmod.SimulationAlgorithm(settings).run(model)
+    if entry == "run_twice":
+        algo = algorithm_factory(settings)
+        algo.run(model)
+        rec.reset()
+        return algo.run(model)
+    raise ValueError(entry)
+
+
+@contextlib.contextmanager
+def ambient(env, what):
+    """Process state a caller may have set before simulating (objects are built beforehand)."""
+    if what == "f64":
+        old = env.torch.get_default_dtype()
+        env.torch.set_default_dtype(env.torch.float64)
+        try:
+            yield
+        finally:
+            env.torch.set_default_dtype(old)
+    elif what == "cow":
+        old = env.pd.get_option("mode.copy_on_write")
+        env.pd.set_option("mode.copy_on_write", True)
+        try:
+            yield
+        finally:
+            env.pd.set_option("mode.copy_on_write", old)
+    else:
+        yield
+
+
 def run_simulate(env, case, budget):
     """Real `model.simulate`; returns dict(outcome, result, recorder, rng_untouched, message)."""
-    model = env.load(case["model"])
-    feats = build_features(case["features"])
+    model = env.model_for(case)
+    feats = build_features(case["features"], case.get("feat_type"), env)
     vp = build_vp(env, case["vp"])
-    rec = Recorder(env)
+    sc = case.get("script")
+    mk_script = (lambda: Script(env, sc["seed"], sc["p"], env.info(case["model"])[1])) if sc else (lambda: None)
+    rec = Recorder(env, mk_script)
     before = env.rng_fingerprint()
     res = dict(outcome=None, result=None, rec=rec, message="")
     try:
-        with rec.installed(), core.quiet(), alarm(budget):
-            res["result"] = model.simulate(algorithm="simulate", seed=case["seed"], features=feats, visit_parameters=vp)
+        with rec.installed(), core.quiet(), alarm(budget), ambient(env, case.get("ambient")):
+            res["result"] = call_simulate(env, model, case, feats, vp, rec)
         res["outcome"] = "ok"
     except Timeout:
         res["outcome"] = "timeout"
@@ -468,7 +687,7 @@ def predicate_on_output(env, case, res):
     result = res["result"]
     vp = case["vp"]
     dim, src, _ = env.info(case["model"])
-    feats = build_features(case["features"])
+    feats = [str(f) for f in build_features(case["features"], None, env)]
     try:
         obs = observed_individuals(env, result)
         df = result.data.to_dataframe()
@@ -540,6 +759,45 @@ def predicate_on_output(env, case, res):
     return fails
 
 
+def random_design_semantics(env, case, res):
+    """Documented meaning of a random design, evaluated on the ages `_generate_visit_ages` returned and the normal draws the run
+    consumed (independent of the Lean model): the first visit of individual i is at onset_i + N(first_visit_mean, first_visit_std),
+    visits follow at steps N(distance_visit_mean, distance_visit_std) while the age is below first visit + |N(time_follow_up_mean,
+    time_follow_up_std)|, individuals are served in order and every step draw is used."""
+    rec = res.get("rec")
+    vp = case["vp"]
+    gen = getattr(rec, "generated_ages", None)
+    if vp.get("visit_type") != "random" or not gen or rec is None or rec.n_normal != len(rec.normal):
+        return []
+    n, src = vp["patient_number"]["i"], env.info(case["model"])[1]
+    calls = rec.normal
+    k = 4 + src
+    if not (len(calls) >= k and all(c[0] == n for c in calls[:k]) and all(c[0] is None for c in calls[k:])):
+        return []   # (reported by the correspondence as a layout difference)
+    tau, fv, fu = ([float(x) for x in calls[j][1]] for j in (1, 2 + src, 3 + src))
+    steps = [float(c[1]) for c in calls[k:]]
+    if sorted(gen, key=int) != [str(i) for i in range(n)]:
+        return [f"visit ages were generated for {sorted(gen)[:6]}, the design asks for individuals 0..{n - 1}"]
+    pos = 0
+    for i in range(n):
+        t = tau[i] + fv[i]
+        end = t + abs(fu[i])
+        want = [t]
+        while t < end and pos < len(steps):
+            t = t + steps[pos]
+            pos += 1
+            want.append(t)
+        got = gen[str(i)]
+        if got != want:
+            j = next((a for a, (x, y) in enumerate(zip(got, want)) if x != y), min(len(got), len(want)))
+            return [f"individual {i}: generated ages {got[:3]}…(#{len(got)}) differ at position {j} from onset + first-visit draw "
+                    f"followed by the step draws up to the follow-up {want[:3]}…(#{len(want)}) [onset {tau[i]!r}, first visit {fv[i]!r}, "
+                    f"follow-up {fu[i]!r}]"]
+    if pos != len(steps):
+        return [f"{len(steps) - pos} of the {len(steps)} step draws were not used for any visit"]
+    return []
+
+
 def judge(env, case, outcome, rng_untouched, res=None):
     """Property predicate for one case. Returns list of (what, finding-id-or-None)."""
     valid, reasons = documented(case)
@@ -566,6 +824,7 @@ def judge(env, case, outcome, rng_untouched, res=None):
     if outcome == "ok":
         if res is not None:
             out += [(w, None) for w in predicate_on_output(env, case, res)]
+            out += [(w, None) for w in random_design_semantics(env, case, res)]
         return out
     fid = None
     if outcome == "err:other:ValueError":
@@ -573,6 +832,8 @@ def judge(env, case, outcome, rng_untouched, res=None):
             fid = "F16f"
         elif f16g_region(case):
             fid = "F16g"
+        elif f130_region(case) and res is not None and "columns passed" in res.get("message", ""):
+            fid = "F130"
         elif nonfin:
             fid = "F16h"
     elif nonfin and [k for k in nonfin if k != "min_spacing_between_visits"]:
@@ -620,6 +881,11 @@ def compare_runs(chk, env, cases, results):
         if r["outcome"] == "timeout":
             chk.tag("model_vs_timeout", resp.split(" ")[0])
             continue
+        if f130_region(c) and r["outcome"] == "err:other:ValueError" and "columns passed" in r.get("message", ""):
+            # F130 (repair in fixes/F130.patch): the model describes the repaired behaviour; on a tree where the finding is still
+            # open the failure has been reported as KNOWN-FINDING by `judge`, the outcomes are not compared
+            chk.tag("f130_open", 1)
+            continue
         impl = canon_impl(env, r)
         if not lay:
             chk.disagree(c, impl[:300], "?", "layout of numpy.random.normal calls differs from the modelled one (xi, tau, sources…, first visit, follow-up, then scalars)")
@@ -651,10 +917,14 @@ def F(x):
 BASE = dict(visit_type="random", patient_number=I(5), first_visit_mean=F(0.0), first_visit_std=F(0.4),
             time_follow_up_mean=I(3), time_follow_up_std=F(0.5), distance_visit_mean=F(0.5), distance_visit_std=F(0.1))
 VALS = [None, I(3), I(0), I(-2), F(1.5), F(0.0), F(-0.5), "nan", "pinf", "ninf", {"o": "str"}, {"o": "none"},
-        {"o": "numstr"}, {"o": "list"}, {"o": "npint"}]
+        {"o": "numstr"}, {"o": "list"}, {"o": "npint"},
+        # numpy.float64 IS a python float; the other numeric kinds are neither int nor float
+        {"f": 1.5, "np": 1}, {"f": 0.0, "np": 1}, {"f": -0.5, "np": 1}, {"o": "npfloat32"}, {"o": "npint32"}, {"o": "fraction"},
+        {"o": "decimal"}, {"o": "complex"}, {"o": "nparray"}, {"o": "tensor"}]
 SPACINGS = [None, I(0), I(1), I(5), F(0.0), F(1e-4), F(0.0009999), F(0.001), F(0.00273), F(1 / 365), F(0.01),
             F(0.0099), F(0.05), F(0.1), F(0.09999), F(0.5), F(1.0), F(0.9999), F(2.5)]
-FEATURE_BAD = ["notlist:tuple", "notlist:none", "notlist:str", [], ["Y0", 1], ["Y0", " "], ["", "Y1"], ["\t\n", "Y1"]]
+FEATURE_BAD = ["notlist:tuple", "notlist:none", "notlist:str", [], ["Y0", 1], ["Y0", " "], ["", "Y1"], ["\t\n", "Y1"],
+               "notlist:set", "notlist:dict", "notlist:array", "notlist:index", "notlist:series", ["Y0", "Y1", "Y2", "\r\x0b\x0c "]]
 
 
 def table(rows, id_at="column", time_at="column", time_null=False):
@@ -729,41 +999,109 @@ def validation_cases(chk):
     return cases
 
 
+def decorate(rng, case):
+    """How the same design reaches the implementation: which model object, which entry point, which process state, which
+    numeric / string types.  (Absent keys = the plain defaults, so recorded cases keep their meaning.)"""
+    case["model_obj"] = rng.choice(["shared", "shared", "shared", "fresh", "deepcopy", "saveload"])
+    entries = [e for e in ENTRIES if not (e == "settings_path" and case["vp"].get("visit_type") != "random")]
+    if rng.random() < 0.6:
+        case["entry"] = rng.choice(entries[1:])
+    r = rng.random()
+    # An ambient default dtype of float64 is honoured for model objects whose derived values (mixing matrix, …) were all computed
+    # beforehand - the stored files carry them, so loading computes them.  A model that still derives values lazily would derive them
+    # in float64 under that ambient, and leaspy as a whole (estimate, personalize) does not mix the two precisions: not this
+    # property's matter, so the synthetic models (files without derived values) are not run under it.
+    if r < 0.12 and not case["model"].startswith("syn_"):
+        case["ambient"] = "f64"
+    elif r < 0.24:
+        case["ambient"] = "cow"
+    if rng.random() < 0.2:
+        case["feat_type"] = rng.choice(["npstr", "strsub"])
+    if rng.random() < 0.25:
+        for k, v in case["vp"].items():
+            if isinstance(v, dict) and "f" in v and rng.random() < 0.5:
+                case["vp"][k] = dict(v, np=1)
+    return case
+
+
+def pick_model(rng):
+    return rng.choice(MODELS) if rng.random() < 0.6 else rng.choice(SYN_MODELS)
+
+
 def random_design(rng, env, thorough):
-    model = rng.choice(MODELS)
+    model = pick_model(rng)
     dim, src, mfeats = env.info(model)
     u = rng.random()
     feats = list(mfeats) if u < 0.8 else [f"feat_{i}" for i in range(dim)]
     mean = rng.choice([0.1, 0.25, 0.5, 1.0, 2.0, 1 / 12, 1])
     std = rng.choice([0, 0.0, mean / 10, mean / 4, mean / 2, mean])
     fum = rng.choice([0, 0.0, 1, 2.5, 4, -2.0, 6])
-    if abs(fum) / mean > 60:
+    fus = rng.choice([F(0.0), I(0), F(0.5), I(1)])
+    n = rng.choice([1, 1, 2, 3, 5, 8, 13] + ([40] if thorough else []))
+    fvm = rng.choice([F(0.0), I(0), F(-2.5), F(1.25), I(3), I(40), F(100.0), F(-60.0)])
+    fvs = rng.choice([F(0.0), I(0), F(0.4), F(1.0), I(2)])
+    wide = rng.random()
+    if wide < 0.07:       # many individuals
+        n = rng.choice([30, 64, 65, 150] if not thorough else [64, 150, 256])
+    elif wide < 0.14:     # long follow-up, close visits: hundreds of visits per individual
+        mean, fum, fus = rng.choice([0.02, 0.05, 1 / 52]), rng.choice([8, 15.0, 30]), rng.choice([F(0.0), F(5.0), I(10)])
+        std = rng.choice([0.0, mean / 4, mean])
+        n = rng.choice([1, 2, 3])
+    elif wide < 0.21:     # far from the onset on both sides (negative ages included), wide spread of first visits
+        fvm, fvs = rng.choice([F(-100.0), I(-150), F(250.0), I(1000), F(-81.5)]), rng.choice([F(10.0), I(25), F(0.0)])
+    elif wide < 0.26:     # sparse visits
+        mean, fum = rng.choice([5, 10.0, 25]), rng.choice([30, 60.0, -40])
+        std = rng.choice([0, mean / 2])
+    if wide >= 0.26 and abs(fum) / mean > 60:
         fum = 2.5
     vp = dict(visit_type="random",
-              patient_number=I(rng.choice([1, 1, 2, 3, 5, 8, 13] + ([40] if thorough else []))),
+              patient_number=I(n),
               # around onset, and far after / before it (saturated curves: values exactly 0 or 1 in single precision)
-              first_visit_mean=rng.choice([F(0.0), I(0), F(-2.5), F(1.25), I(3), I(40), F(100.0), F(-60.0)]),
-              first_visit_std=rng.choice([F(0.0), I(0), F(0.4), F(1.0), I(2)]),
+              first_visit_mean=fvm,
+              first_visit_std=fvs,
               time_follow_up_mean=I(fum) if isinstance(fum, int) else F(fum),
-              time_follow_up_std=rng.choice([F(0.0), I(0), F(0.5), I(1)]),
+              time_follow_up_std=fus,
               distance_visit_mean=I(mean) if isinstance(mean, int) else F(mean),
               distance_visit_std=I(std) if isinstance(std, int) else F(std))
-    ms = rng.choice(SPACINGS)
+    ms = rng.choice(SPACINGS + [I(30), F(365.25), F(1e3), F(1e-9), F(0.002)])
     if ms is not None:
         vp["min_spacing_between_visits"] = ms
-    return dict(kind="run", model=model, features=feats, vp=vp, seed=rng.randrange(0, 10_000))
+    seed = rng.choice([0, None, 2 ** 32 - 1, 1]) if rng.random() < 0.15 else rng.randrange(0, 10_000)
+    return decorate(rng, dict(kind="run", model=model, features=feats, vp=vp, seed=seed))
+
+
+def scripted_design(rng, env):
+    """A random design whose normal draws are replaced by adversarial ones (see `Script`) at the reporting precision p."""
+    model = pick_model(rng)
+    dim, src, mfeats = env.info(model)
+    p = rng.choice([0, 1, 2, 3])
+    ms = {0: rng.choice([I(1), F(1.0), F(2.5), I(30)]), 1: rng.choice([F(0.1), F(0.5), F(0.9999)]),
+          2: rng.choice([F(0.01), F(0.05), F(0.09999)]), 3: rng.choice([None, F(0.001), F(0.0), F(1 / 365), F(0.0099)])}[p]
+    vp = dict(BASE, patient_number=I(rng.choice([1, 2, 4, 7])), distance_visit_std=F(0.2))
+    if ms is not None:
+        vp["min_spacing_between_visits"] = ms
+    case = dict(kind="run", model=model, features=list(mfeats), vp=vp, seed=rng.randrange(0, 10_000),
+                script=dict(seed=rng.randrange(1 << 30), p=p))
+    case["model_obj"] = rng.choice(["shared", "fresh"])
+    return case
+
+
+TABLE_IDS = ["p1", "p2", "a", "b", "sub-10", "07", "x y", "z", "10", "9", "2", "\u00e9", "\u65e5\u672c", "A", "a ", "id" * 40, "1e3", "-1", "nan", "None"]
 
 
 def table_design(rng, env):
-    model = rng.choice(MODELS)
+    model = pick_model(rng)
     dim, src, mfeats = env.info(model)
-    n_ind = rng.choice([1, 1, 2, 3, 5])
+    n_ind = rng.choice([1, 1, 2, 3, 5, 5, 12, 30])
     int_ids = rng.random() < 0.35
-    ids = rng.sample(range(0, 40), n_ind) if int_ids else rng.sample(["p1", "p2", "a", "b", "sub-10", "07", "x y", "z"], n_ind)
+    if int_ids:
+        ids = rng.sample(list(range(0, 40)) + [-1, -7, 10 ** 12, 2 ** 31 - 1, 100, 1000], n_ind)
+    else:
+        ids = rng.sample(TABLE_IDS + [f"s{k}" for k in range(20)], n_ind)
     rows = []
     for i in ids:
-        t = rng.choice([55.0, 62.5, 70.0, 81.25, 81.25, 110.0, 180.0, 5.0]) + rng.randrange(0, 1000) / 1000
-        for _ in range(rng.choice([1, 2, 3, 4, 6])):
+        t = rng.choice([55.0, 62.5, 70.0, 81.25, 81.25, 110.0, 180.0, 5.0, 0.0, -3.0, 1000.0, 250.5]) + rng.randrange(0, 1000) / 1000
+        for _ in range(rng.choice([1, 2, 3, 4, 6, 12])):
             kind = rng.random()
             if kind < 0.25 and rows and rows[-1][0] == i:
                 t2 = rows[-1][1] + rng.choice([0.0, 0.0001, 0.0004, 0.0005, 0.00049, 0.001, -0.0003])   # near duplicate
@@ -771,17 +1109,47 @@ def table_design(rng, env):
                 t2 = round(t, 2) + rng.choice([0.0005, 0.0015, 0.0025, 0.0035])   # half-way for rint
             elif kind < 0.5:
                 t2 = float(int(t))
+            elif kind < 0.6:
+                t2 = t + rng.random() * 1e-6      # ages computed from dates: many decimals
             else:
                 t2 = t
             rows.append([i, t2])
             t += rng.choice([0.5, 1.0, 0.25, 1 / 12, 0.001, 0.0007])
-    rng.shuffle(rows) if rng.random() < 0.5 else None
-    if rng.random() < 0.1:
+    order = rng.random()
+    if order < 0.4:
+        rng.shuffle(rows)
+    elif order < 0.55:
+        rows.sort(key=lambda r: -r[1])           # latest visit first
+    elif order < 0.7:
+        rows.sort(key=lambda r: r[1])            # by age, individuals interleaved
+    tb = {}
+    u = rng.random()
+    if u < 0.1:
         rows = [[i, int(t)] for i, t in rows]
-    vp = dict(visit_type="dataframe", df_visits=table(rows))
+        tb["time_dtype"] = rng.choice([None, "int64", "int32", "object"])
+    elif u < 0.25:
+        np = env.np
+        rows = [[i, float(np.float32(t))] for i, t in rows]     # the ages ARE single-precision numbers
+        tb["time_dtype"] = "float32"
+    elif u < 0.32:
+        tb["time_dtype"] = "object"
+    v = rng.random()
+    if v < 0.12:
+        tb["id_dtype"] = "category"
+        if rng.random() < 0.4:
+            tb["unused_category"] = True
+    elif v < 0.2 and not int_ids:
+        tb["id_dtype"] = "string"
+    elif v < 0.2 and int_ids and all(abs(i) < 2 ** 31 for i in ids):
+        tb["id_dtype"] = "int32"
+    if rng.random() < 0.2:
+        tb["extra_cols"] = True
+    if rng.random() < 0.3:
+        tb["index"] = rng.choice(["gaps", "dup", "named"] + (["filtered"] if not tb.get("time_dtype") else []))
+    vp = dict(visit_type="dataframe", df_visits=dict(table(rows), **{k: v for k, v in tb.items() if v}))
     if rng.random() < 0.2:
         vp["min_spacing_between_visits"] = rng.choice([F(0.1), F(1.0), I(1), F(-1)])   # ignored for tables
-    return dict(kind="run", model=model, features=list(mfeats), vp=vp, seed=rng.randrange(0, 10_000))
+    return decorate(rng, dict(kind="run", model=model, features=list(mfeats), vp=vp, seed=rng.randrange(0, 10_000)))
 
 
 def fixed_run_cases(env):
@@ -810,6 +1178,25 @@ def fixed_run_cases(env):
     cases.append(dict(kind="run", model=D, features=[], vp=dict(BASE), seed=16))
     cases.append(dict(kind="run", model=D, features=list(mf), vp=dict(visit_type="dataframe", df_visits=table([["a", 70.0], ["b", 71.0]], time_null=True)), seed=16))
     cases.append(dict(kind="run", model=D, features=list(mf), vp=dict(visit_type="dataframe", df_visits=table([["a", 70.0]], time_at="missing")), seed=16))
+    # the same refusals through the other entry points, on the shared model object (nothing may be generated there either)
+    for k, (over, entry) in enumerate([(dict(distance_visit_mean=F(-1.0)), "settings"), (dict(patient_number=I(0)), "factory"),
+                                       (dict(first_visit_std=F(-0.1)), "class"), (dict(patient_number=F(2.5)), "settings_path"),
+                                       (dict(patient_number={"o": "npint"}), "enum"), (dict(min_spacing_between_visits=F(-1.0)), "run_twice"),
+                                       (dict(time_follow_up_std={"o": "npfloat32"}), "settings_twice"), (dict(visit_type="regular"), "factory")]):
+        cases.append(dict(kind="run", model=D, features=list(mf), vp=dict(BASE, **over), seed=17 + k, entry=entry, model_obj="shared"))
+    # every entry point, model object and process state at least once per run, on a plain design and on a table
+    tab = table([["b", 70.0004], ["a", 66.5], ["b", 70.0], ["a", 66.5004], ["c", 0.0]])
+    for k, entry in enumerate(ENTRIES):
+        for j, vp in enumerate((dict(BASE, patient_number=I(3)), dict(visit_type="dataframe", df_visits=tab))):
+            if entry == "settings_path" and j == 1:
+                continue
+            cases.append(dict(kind="run", model=MODELS[(k + j) % len(MODELS)], features=list(env.info(MODELS[(k + j) % len(MODELS)])[2]),
+                              vp=vp, seed=30 + k, entry=entry, model_obj=["shared", "deepcopy", "saveload", "fresh"][(k + j) % 4],
+                              ambient=[None, "f64", "cow"][(k + j) % 3]))
+    for m in SYN_MODELS:
+        cases.append(dict(kind="run", model=m, features=list(env.info(m)[2]), vp=dict(BASE, patient_number=I(4)), seed=40, model_obj="shared"))
+        cases.append(dict(kind="run", model=m, features=list(env.info(m)[2]), vp=dict(BASE, patient_number=I(1), first_visit_mean=F(60.0)), seed=41,
+                          model_obj="shared", entry="run_twice"))
     return cases
 
 
@@ -821,6 +1208,9 @@ FINDING_WITNESSES = {
                 vp=dict(visit_type="dataframe", df_visits=table([])), seed=1),
     "F16h": dict(kind="run", model="logistic_diag_noise", features=["Y0", "Y1", "Y2", "Y3"],
                 vp=dict(BASE, first_visit_mean="nan"), seed=1),
+    "F130": dict(kind="run", model="logistic_diag_noise", features=["Y0", "Y1", "Y2", "Y3"],
+                 vp=dict(visit_type="dataframe", df_visits=dict(table([["a", 70.1], ["a", 71.5], ["b", 66.0]]), id_dtype="category",
+                                                                unused_category=True)), seed=1),
 }
 EXTRA_FINDING_CASES = [
     dict(kind="run", model="logistic_diag_noise", features=["Y0", "Y1", "Y2", "Y3"], vp=None, seed=1),
@@ -870,18 +1260,33 @@ def record_run(chk, env, case, res):
              sample=case if (dedup or not valid) and len(chk.samples) < 4 else None,
              tags={"kind": "run:" + str(vp.get("visit_type", "none")), "outcome": res["outcome"].replace("err:other:", ""),
                    "model": case["model"], "precision": expected_precision(case) if valid else "-",
-                   "rounding_merged_visits": dedup, "documented_valid": valid})
+                   "rounding_merged_visits": dedup, "documented_valid": valid, "entry": case.get("entry", "kwargs"),
+                   "model_obj": case.get("model_obj", "fresh"), "ambient": case.get("ambient") or "-",
+                   "scripted_draws": bool(case.get("script")),
+                   "table_layout": "+".join(sorted(f"{k}={v}" for k, v in (vp.get("df_visits") or {}).items()
+                                                   if k in ("time_dtype", "id_dtype", "extra_cols", "index", "unused_category") and v)) or "-"
+                   if isinstance(vp.get("df_visits"), dict) else "-"})
 
 
 def run(chk: core.Check):
-    env = Env()
+    env = Env(getattr(chk, "_tmp", None))
+    try:
+        _run(chk, env)
+    finally:
+        env.close()
+
+
+def _run(chk: core.Check, env):
     thorough = chk.tier == "thorough"
     budget = THOROUGH_ALARM if thorough else QUICK_ALARM
     chk.rule = ("validation: constructor outcome on a grid of parameter dictionaries (every kind of value for every key one at a time, "
                 "all sign combinations of distance mean/std, spacing edge values, visit types, feature lists, table shapes, random "
                 "combinations) vs the Lean decision table; runs: real model.simulate on 5 stored logistic models over random and "
                 "table-driven designs (spacing edge values, n=1, int ids, near-duplicate / half-way / unsorted ages) with recorded "
-                "numpy draws fed to the Lean model, final ages compared bitwise; each run under a wall-clock alarm. "
+                "numpy draws fed to the Lean model, final ages compared bitwise; each run under a wall-clock alarm; the runs vary "
+                "the model object (shared / fresh / deep copy / saved+loaded; 7 synthetic logistic models), the entry point (8), the "
+                "process state (torch default dtype, pandas copy-on-write), value types (numpy scalars, str subclasses), table "
+                "dtypes / layouts, seeds 0 / None / 2**32-1, and 40 (thorough 400) designs run on scripted adversarial draws. "
                 "Non-trivial: refused design, or completed run with >= 2 visits; distinct by full design + seed.")
     # findings' witnesses, probed on every run
     for fid, case in FINDING_WITNESSES.items():
@@ -906,11 +1311,13 @@ def run(chk: core.Check):
     compare_validation(chk, env, vcases, vout)
     # 2. runs
     rcases = [c for c in core.load_corpus(PROP) if c.get("kind") == "run"] + fixed_run_cases(env) + EXTRA_FINDING_CASES
-    n_rand, n_tab = (2000, 1000) if thorough else (120, 80)
+    n_rand, n_tab, n_scr = (1500, 800, 400) if thorough else (120, 80, 40)
     for _ in range(n_rand):
         rcases.append(random_design(chk.rng, env, thorough))
     for _ in range(n_tab):
         rcases.append(table_design(chk.rng, env))
+    for _ in range(n_scr):
+        rcases.append(scripted_design(chk.rng, env))
     results = []
     for c in rcases:
         res = exec_run_case(chk, env, c, budget)
@@ -921,7 +1328,14 @@ def run(chk: core.Check):
 
 
 def replay(chk: core.Check, payload):
-    env = Env()
+    env = Env(getattr(chk, "_tmp", None))
+    try:
+        _replay(chk, env, payload)
+    finally:
+        env.close()
+
+
+def _replay(chk: core.Check, env, payload):
     case = payload.get("case") or (payload.get("disagreements") or [{}])[0].get("case")
     if not case:
         chk.note("replay file has no case")
